@@ -81,3 +81,38 @@ Fixpoint decode_depth (k : nat) (d : option sdecl) (t : tree) : data :=
       | S k' => D g ty (map (fun c => decode_depth k' (match d with Some dd => find_child dd (tag_of c) | None => None end) c) ks)
       end
   end.
+
+(* ---- paths with wildcard steps (schemas.py iter_errors / iter_decode with path, after repo fix e9f3327) ----
+   A path such as /root/*/item selects the same name in several contexts.  The declaration used for a selected node is
+   the one found with the node's own path; before the fix it was the first declaration that the path expression finds
+   on the schema. *)
+Inductive pstep := PName (n : N) | PAny.
+
+Fixpoint find_schema_w (d : sdecl) (p : list pstep) : option sdecl :=
+  match p with
+  | [] => Some d
+  | PName n :: r => match find_child d n with Some k => find_schema_w k r | None => None end
+  | PAny :: r =>
+      (fix first (ks : list sdecl) : option sdecl :=
+         match ks with
+         | [] => None
+         | k :: ks' => match find_schema_w k r with Some x => Some x | None => first ks' end
+         end) (d_kids d)
+  end.
+
+(* does the node at address a match the path p? *)
+Fixpoint matches_path (t : tree) (a : addr) (p : list pstep) : bool :=
+  match a, p with
+  | [], [] => true
+  | i :: r, s :: q =>
+      match nth_error (kids_of t) i with
+      | Some c => (match s with PName n => N.eqb (tag_of c) n | PAny => true end) && matches_path c r q
+      | None => false
+      end
+  | _, _ => false
+  end.
+
+Definition decode_selected (d : sdecl) (t : tree) (a : addr) : option data :=
+  option_map (decode (find_schema d (names_along t a))) (subtree t a).
+Definition decode_selected_first (d : sdecl) (t : tree) (p : list pstep) (a : addr) : option data :=
+  option_map (decode (find_schema_w d p)) (subtree t a).
